@@ -27,10 +27,15 @@ def det(A):
     return float(np.linalg.det(A.astype(float)))
 
 
+FORCED_SIGN = {}
+
+
 def rot2(ctx, tag):
     """All of O(2): rotation by (c,s) times diag(1, sg), sg^2 = 1."""
     c, s = ctx.unit2(tag)
-    sg = sign(ctx, tag + '_sg')
+    sg = FORCED_SIGN.get(tag, None)
+    if sg is None:
+        sg = sign(ctx, tag + '_sg')
     R = np.empty((2, 2), dtype=object if ctx.sym else float)
     R[0, 0], R[0, 1], R[1, 0], R[1, 1] = c, -s * sg, s, c * sg
     return R
@@ -241,3 +246,74 @@ def assume_in_domain(ctx, t, pts):
     for e in w:
         ctx.assume(e != 0, 'point in the domain of the projective map')
     return hy[:, :d] / w[:, None]
+
+
+# ----------------------------------------------------------------- shapes
+SHAPE_CLASSES = ['PointCloud', 'TriMesh', 'ColouredTriMesh', 'TexturedTriMesh', 'PointUndirectedGraph',
+                 'PointDirectedGraph', 'PointTree', 'LabelledPointUndirectedGraph']
+
+
+def shape(ctx, cls, d, tag, n=4, landmarks=0, lm_classes=None):
+    """instance of a shape class with symbolic coordinates (and colours /
+    tcoords / texture pixels), concrete connectivity; optionally `landmarks`
+    groups whose classes cycle through lm_classes."""
+    from collections import OrderedDict
+    T, S = menpo_mods()
+    from menpo.image import Image
+    pts = ctx.reals(tag + '_p', (n, d))
+    trilist = np.array([[0, 1, 2], [1, 3, 2]][: max(1, n - 2)])
+    edges = np.array([[i, i + 1] for i in range(n - 1)])
+    if cls == 'PointCloud':
+        o = S.PointCloud(pts)
+    elif cls == 'TriMesh':
+        o = S.TriMesh(pts, trilist=trilist)
+    elif cls == 'ColouredTriMesh':
+        o = S.ColouredTriMesh(pts, trilist=trilist, colours=ctx.reals(tag + '_col', (n, 3)))
+    elif cls == 'TexturedTriMesh':
+        tex = Image(ctx.reals(tag + '_tex', (1, 2, 2)))
+        o = S.TexturedTriMesh(pts, ctx.reals(tag + '_tc', (n, 2)), tex, trilist=trilist)
+    elif cls == 'PointUndirectedGraph':
+        o = S.PointUndirectedGraph.init_from_edges(pts, edges)
+    elif cls == 'PointDirectedGraph':
+        o = S.PointDirectedGraph.init_from_edges(pts, edges)
+    elif cls == 'PointTree':
+        o = S.PointTree.init_from_edges(pts, edges, root_vertex=0)
+    elif cls == 'LabelledPointUndirectedGraph':
+        g = S.PointUndirectedGraph.init_from_edges(pts, edges)
+        m1 = np.zeros(n, dtype=bool); m1[: n - 1] = True
+        m2 = np.zeros(n, dtype=bool); m2[1:] = True
+        o = S.LabelledPointUndirectedGraph(pts, g.adjacency_matrix, OrderedDict([('zeta', m1), ('alpha', m2)]))
+    else:
+        raise KeyError(cls)
+    lm_classes = lm_classes or SHAPE_CLASSES
+    for k in range(landmarks):
+        lc = lm_classes[k % len(lm_classes)]
+        o.landmarks['g%d_%s' % (k, lc)] = shape(ctx, lc, d, '%s_lm%d' % (tag, k), n=3 if lc not in ('TriMesh', 'ColouredTriMesh', 'TexturedTriMesh') else 3)
+    return o
+
+
+# ----------------------------------------------------------------- images
+def image(ctx, cls, shape, n_channels=1, mask=None, landmarks=0, tag='im', dtype=None):
+    """Image / MaskedImage / BooleanImage with symbolic pixels (object persona)
+    or, natively, pixels of the requested dtype.  mask: concrete bool array."""
+    from menpo.image import Image, MaskedImage, BooleanImage
+    T, S = menpo_mods()
+    d = len(shape)
+    if cls == 'BooleanImage':
+        m = mask if mask is not None else np.ones(shape, dtype=bool)
+        o = BooleanImage(np.array(m, dtype=bool))
+    else:
+        px = ctx.reals(tag + '_px', (n_channels,) + tuple(shape), scale=50.0 if dtype == 'uint8' else 1.0)
+        if not ctx.sym and dtype is not None:
+            if dtype == 'uint8':
+                px = np.clip(np.abs(px), 0, 255).astype(np.uint8)
+            else:
+                px = px.astype(dtype)
+        if cls == 'Image':
+            o = Image(px)
+        else:
+            o = MaskedImage(px, mask=None if mask is None else np.array(mask, dtype=bool))
+    for k in range(landmarks):
+        pts = ctx.reals('%s_lm%d' % (tag, k), (3, d))
+        o.landmarks['g%d' % k] = S.PointCloud(pts) if k % 2 == 0 else S.PointUndirectedGraph.init_from_edges(pts, np.array([[0, 1], [1, 2]]))
+    return o
